@@ -441,6 +441,66 @@ fn scope_cmd(t: &mut Toks) -> String {
     format!("{} ;; {}", res, dump.join(" | "))
 }
 
+/// libs <stdlib 0|1> <n> (<name-parts-hex, '.'-separated identifiers> <source-hex>)* <program-hex>
+/// registers library factories from source text (a source that does not parse / does not contain the library is
+/// reported and skipped, so that the library is then simply missing), then evaluates the program form by form.
+fn libs_cmd(t: &mut Toks) -> String {
+    use ruschm::interpreter::LibraryFactory;
+    use ruschm::parser::{LibraryName, LibraryNameElement};
+    let stdlib = t.next() == "1";
+    let n: usize = t.int();
+    let mut it = if stdlib {
+        Interpreter::<f32>::new_with_stdlib()
+    } else {
+        Interpreter::<f32>::default()
+    };
+    let mut notes = Vec::new();
+    for _ in 0..n {
+        let name = unhex(t.next());
+        let src = unhex(t.next());
+        let lname = LibraryName(
+            name.split('.')
+                .map(|p| LibraryNameElement::Identifier(p.to_string()))
+                .collect(),
+        );
+        match LibraryFactory::from_char_stream(&lname, src.chars()) {
+            Ok(f) => it.register_library_factory(f),
+            Err(e) => notes.push(format!("REGFAIL {} {}", hex(&name), err_kind(&e))),
+        }
+    }
+    let text = unhex(t.next());
+    let mut out: Vec<String> = Vec::new();
+    let lexer = Lexer::from_char_stream(text.chars());
+    let parser = Parser::from_lexer(lexer);
+    for statement in parser {
+        match statement {
+            Err(e) => {
+                out.push(err_kind(&e));
+                break;
+            }
+            Ok(st) => {
+                let r = catch_unwind(AssertUnwindSafe(|| it.eval_root_ast(&st)));
+                match r {
+                    Err(_) => out.push("PANIC".to_string()),
+                    Ok(Ok(Some(v))) => out.push(format!("OK {}", show_value(&v))),
+                    Ok(Ok(None)) => out.push("OK -".to_string()),
+                    Ok(Err(e)) => out.push(err_kind(&e)),
+                }
+            }
+        }
+    }
+    // names bound in the top-level environment afterwards (sorted), for the import-set checks
+    let mut names: Vec<String> = Vec::new();
+    {
+        let mut defs = it.env.iter_local_definitions();
+        while let Some((k, _)) = defs.next() {
+            names.push(k.clone());
+        }
+    }
+    names.sort();
+    format!("{} ;;; {} ;;; {}", out.join(" ;; "), names.join(" "), notes.join(" "))
+}
+
 fn run_line(line: &str) -> String {
     let mut t = Toks {
         t: line.split_whitespace().collect(),
@@ -536,6 +596,7 @@ fn run_line(line: &str) -> String {
                 Err(e) => err_kind(&e),
             }
         }
+        "libs" => libs_cmd(&mut t),
         "scope" => scope_cmd(&mut t),
         "c18sweep" => c18sweep(t.int()),
         "refdepth" => {
